@@ -99,7 +99,8 @@ def evaluate(task):
             if not first['accept']:
                 out.append({'cfg': list(cfg), 'accept': False, 'exc': 'PRIMING-REJECTED', 'why': None, 'subject': None})
                 continue
-        obs = oracle.accept_response(sp_for(cfg), xml)
+        over = {'binding': world.BINDING_HTTP_REDIRECT} if (isinstance(label, str) and label.endswith('@redirect')) else {}
+        obs = oracle.accept_response(sp_for(cfg), xml, **over)
         why = None
         if obs['accept']:
             try:
@@ -437,6 +438,18 @@ def build_tasks(ctx):
     for (kind, alg), xml in starts.items():
         add(dict(kind='start', start=kind, alg=alg, enc=False), xml, False, cfgs_for(kind))
     add(dict(kind='start', start='A', alg='sha256', enc=True), starts[('A', 'sha256')], True, cfgs_for('A'))
+    # 0b. the binding a response arrives over changes nothing: documents addressed to the SP's Redirect endpoint, signed as
+    #     the starts are (control) and with every signature absent, handed over with the HTTP-Redirect binding
+    def redirect_doc(kind):
+        sr = 'idpA' if 'R' in kind else None
+        sa = 'idpA' if 'A' in kind else None
+        return forge.build(env.BASE, resp=dict(extensions=EXT, dest=world.ACS_REDIRECT),
+                           assertions=[dict(advice=ADV, confirmations=[forge.confirmation(env.BASE, recipient=world.ACS_REDIRECT)])],
+                           sign_resp=sr, sign_ass=sa)
+    for kind in ('A', 'R', 'RA'):
+        add(dict(kind='start@redirect', start=kind, alg='sha256', enc=False), redirect_doc(kind), False, cfgs_for(kind))
+    add(dict(kind='unsigned@redirect', start='none', alg='sha256', enc=False), redirect_doc(''), False, list(CFGS))
+    add(dict(kind='unsigned@redirect', start='none', alg='sha256', enc=True), redirect_doc(''), True, list(CFGS))
     # 1. wrap grammar
     for target, kind in (('Assertion', 'A'), ('Assertion', 'RA'), ('Response', 'R'), ('Response', 'RA')):
         if target == 'Response' and kind == 'RA' and not ctx.thorough:
